@@ -395,4 +395,5 @@ def document_single_file(file, root, settings: Settings):
             output_writer.write_to_file(output_filename)
     else:  # Output was not specified so print to screen
         # Use print() for raw output instead of logger
-        print(str(output_writer) + "\n")
+        # print() terminates the text with a newline, which leaves one empty line after the page
+        print(str(output_writer))
